@@ -36,6 +36,10 @@ func C28(run *Run) {
 			u, t, derr := ser.Deserialize(string(raw))
 			if derr == nil {
 				ev["accepted"], ev["ulid"], ev["typ"] = true, u, t
+			} else if len(raw) == 0 && tok != "" {
+				// a non-empty token that decodes to the empty payload is taken by the APIs as "no token":
+				// the listing restarts from the beginning, i.e. the token is accepted for another position
+				ev["accepted"] = true
 			}
 		}
 		events = append(events, ev)
